@@ -320,6 +320,64 @@ fn nested(depth: usize, leaf: &[u8]) -> Vec<u8> {
     v
 }
 
+/// In-process reduced run for `cargo miri run`: returns (evaluations, violations).
+pub fn miri_run(seed: u64, cases: u64) -> (u64, Vec<String>) {
+    let mut st = Stats::default();
+    let mut kinds = std::collections::BTreeSet::new();
+    let mut n = 0u64;
+    let mut v = Vec::new();
+    let mut feed = |buf: &[u8], v: &mut Vec<String>| {
+        n += 1;
+        if let Some(x) = judge(buf, &mut st, &mut kinds) {
+            v.push(format!("[{}] {}", x.sig, x.desc));
+        }
+    };
+    for case in 0..cases {
+        let mut r = Rng::derive(seed, 0xC07_0000_0000 ^ case);
+        let mut f = gen_frame(&mut r, 1);
+        let mut enc = encode(&f);
+        for _ in 0..10 {
+            if enc.len() <= 80 {
+                break;
+            }
+            f = gen_frame(&mut r, 2);
+            enc = encode(&f);
+        }
+        if enc.len() > 80 {
+            continue;
+        }
+        feed(&enc, &mut v);
+        for i in (0..enc.len()).step_by(2) {
+            feed(&enc[..i], &mut v);
+        }
+        for _ in 0..3 {
+            let mut m = enc.clone();
+            let p = r.usize_below(m.len().max(1));
+            m[p] = *r.pick(ALPHABET);
+            feed(&m, &mut v);
+        }
+    }
+    // a handful of numbers past buffer offset 18 (building the full table is too slow under Miri)
+    for num in ["9223372036854775807", "9223372036854775808", "-9223372036854775808", "-9223372036854775809", "18446744073709551621", "000000000000000000001", "+12", "-", ""] {
+        for t in [b':', b'$', b'*'] {
+            let mut buf = b"*2\r\n+xxxxxxxxxxxxxxxxxxxx\r\n".to_vec();
+            buf.push(t);
+            buf.extend_from_slice(num.as_bytes());
+            buf.extend_from_slice(b"\r\n");
+            feed(&buf, &mut v);
+            feed(&buf[..buf.len() - 2], &mut v);
+        }
+    }
+    for d in [1usize, 8, 31, 32, 33, 34, 40] {
+        feed(&nested(d, b":1\r\n"), &mut v);
+        feed(&nested(d, b""), &mut v);
+    }
+    for b in [&b":-"[..], b"$-", b"*-", b"$+", b"*9223372036854775807\r\n", b"$9223372036854775807\r\n", b"*2\r\n$3\r\nGET\r\n$18446744073709551621\r\nk\r\n"] {
+        feed(b, &mut v);
+    }
+    (n, v)
+}
+
 fn on_small_stack<T: Send + 'static>(f: impl FnOnce() -> T + Send + 'static) -> std::thread::Result<T> {
     std::thread::Builder::new().stack_size(2 * 1024 * 1024).spawn(f).expect("spawn").join()
 }
